@@ -217,7 +217,7 @@ PROPS['C02'] = {
 _C03_SCEN = [  # (scenario, threads, quick cases, thorough cases)
     ('future_mt', 5, 12000, 600000), ('future_async_mt', 5, 12000, 600000), ('mutex_mt', 4, 10000, 500000), ('mutex_pool_handoff', 1, 20000, 400000),
     ('queue_mt', 5, 8000, 400000), ('lqueue_mt', 5, 8000, 400000), ('shared_future_mt', 4, 10000, 500000),
-    ('scheduler_threads', 1, 6000, 200000), ('scheduler_stop_race', 1, 6000, 200000), ('pool_mt', 4, 12000, 400000), ('publisher_mt', 4, 8000, 400000), ('signal_mt', 4, 8000, 400000), ('generator_programs', 2, 6000, 300000), ('aggregator_programs', 2, 4000, 200000), ('adapter_matrix', 2, 9000, 400000),
+    ('scheduler_threads', 1, 6000, 200000), ('scheduler_stop_race', 1, 6000, 200000), ('pool_mt', 4, 12000, 400000), ('publisher_mt', 4, 8000, 400000), ('signal_mt', 4, 8000, 400000), ('generator_programs', 2, 6000, 300000), ('aggregator_programs', 2, 4000, 200000), ('adapter_matrix', 2, 9000, 400000), ('storage_mt', 2, 12000, 500000),
 ]
 PROPS['C03'] = {
     'technique': 'ThreadSanitizer (happens-before race detection) over the shared multi-threaded scenario library; guarded fence annotation',
@@ -456,5 +456,34 @@ PROPS['C18'] = {
         J('matrix_asan', 'c18.cpp', 'asan', [60000, 3000000], scenario='adapter_matrix', threads=2),
         J('matrix_rel', 'c18.cpp', 'rel', [200000, 10000000], scenario='adapter_matrix', threads=2),
         J('matrix_casan', 'c18.cpp', 'casan', [0, 1500000], scenario='adapter_matrix', threads=2, tiers=(T,)),
+    ],
+}
+
+PROPS['C19'] = {
+    'technique': 'monitoring wrapper around every library storage policy (live-frame interval table, pairing), frame canaries, global new/delete accounting; ASan/UBSan; two-thread rounds',
+    'level_text': ('monitored<S> wraps default_storage, reusable_storage, reusable_storage_mtsafe, stack_storage (alloca, heap fallback), placement_alloc, '
+                   'reusable_buffer_storage and promise_extra_storage: every frame handed out is entered in a live-interval table (no two live '
+                   'frames overlap, dealloc pairs with alloc with the same pointer and size), coroutine bodies of three frame sizes fill a canary '
+                   'array before suspending and verify it after every resumption, global new/delete counters must balance after every sequence '
+                   '(heap fallbacks released exactly once) and show zero growth for five equally sized frames after warm-up for the reusing '
+                   'policies; stack_storage must fit the next frame after an equal or larger one went through the heap fallback; the attached extra '
+                   'object is counted (constructed once when the coroutine object is created, usable before start, destroyed with the frame, also '
+                   'for a never-started coroutine). Two pinned threads create and finish coroutines on one reusable_storage_mtsafe with stalls at '
+                   'the alloc/dealloc hook sites (frame overlap, canaries, heap balance; the same scenario runs under TSan in C03).'),
+    'level_note': ('The check binary replaces global operator new/delete with counting versions; balances are taken in windows where the harness itself '
+                   'does not allocate (strings pre-reserved, thread-local ready queues warmed up). static_storage is not part of the statement and '
+                   'does not satisfy the Storage concept (non-static dealloc), so it is not driven.'),
+    'rule': ('case = one random creation/completion sequence on one policy (7 policies round-robin, 4-24 steps, up to 3 live frames where the policy '
+             'allows it, 3 frame sizes) or one two-thread round; every case is non-trivial; distinct = distinct op sequence / (frames per thread, sizes, '
+             'stall fired).'),
+    'min_nontrivial': [300, 3000],
+    'require_classes': ['storage_mt:rounds_with_stall_fired', 'storage_sequences:policy: stack_storage', 'storage_sequences:policy: promise_extra_storage'],
+    'single_thread_scenarios': ('storage_sequences',),
+    'jobs': [
+        J('seq_asan', 'c19.cpp', 'asan', [40000, 2000000], scenario='storage_sequences', threads=1),
+        J('seq_rel', 'c19.cpp', 'rel', [60000, 4000000], scenario='storage_sequences', threads=1),
+        J('mt_asan', 'c19.cpp', 'asan', [60000, 3000000], scenario='storage_mt', threads=2),
+        J('mt_rel', 'c19.cpp', 'rel', [300000, 15000000], scenario='storage_mt', threads=2),
+        J('seq_casan', 'c19.cpp', 'casan', [0, 800000], scenario='storage_sequences', threads=1, tiers=(T,)),
     ],
 }
